@@ -450,7 +450,9 @@ pub fn grid(thorough: bool) -> Vec<CbCfg> {
     let mut v = vec![];
     let sizes: &[usize] = if thorough { &[1, 2, 3] } else { &[1, 2] };
     let thresholds: &[f64] = if thorough { &[0.0, 0.5, 1.0] } else { &[0.5, 1.0] };
-    let slows: &[(Option<u64>, f64)] = &[(None, 1.0), (Some(SLOW_THR), 0.5), (Some(SLOW_THR), 1.0)];
+    // (slow-call duration threshold, slow-call rate threshold); (None, 0.0): a rate threshold
+    // of zero with detection switched off
+    let slows: &[(Option<u64>, f64)] = &[(None, 1.0), (Some(SLOW_THR), 0.5), (Some(SLOW_THR), 1.0), (None, 0.0)];
     for time_based in [false, true] {
         for &size in sizes {
             for &thr in thresholds {
